@@ -602,3 +602,138 @@ Qed.
 Theorem source_tree_names_file srcs i s :
   nth_error srcs i = Some s -> find (fun p => Nat.eqb (fst p) (S i)) (source_tree srcs) = Some (S i, s).
 Proof. intro E. unfold source_tree. apply (number_from_find srcs 1 i s E). Qed.
+
+(* ------------------------------------------------------------ SourceTree as two hash maps *)
+Lemma last_assoc_none {A} key (l : list (N * A)) : ~ In key (map fst l) -> last_assoc key l = None.
+Proof.
+  induction l as [|[k v] t IH]; intro H; [reflexivity|]. cbn [last_assoc map fst In] in *.
+  rewrite IH by tauto. destruct (N.eqb_spec k key); [exfalso; tauto | reflexivity].
+Qed.
+
+Lemma last_assoc_nodup {A} (l : list (N * A)) : NoDup (map fst l) -> forall i key v,
+  nth_error l i = Some (key, v) -> last_assoc key l = Some v.
+Proof.
+  induction l as [|[k v0] t IH]; intros ND i key v H; [destruct i; discriminate|].
+  cbn [map fst] in ND. inversion ND as [|? ? Hn ND']; subst. cbn [last_assoc]. destruct i as [|i]; cbn [nth_error] in H.
+  - injection H as -> ->. rewrite (last_assoc_none _ _ Hn), N.eqb_refl. reflexivity.
+  - rewrite (IH ND' i key v H). reflexivity.
+Qed.
+
+Lemma tree_entries_nth : forall files k i p s, nth_error files i = Some (p, s) ->
+  nth_error (tree_entries k files) i = Some (u16 (k + N.of_nat i + 1), p).
+Proof.
+  induction files as [|[p0 s0] t IH]; intros k i p s H; [destruct i; discriminate|].
+  cbn [tree_entries]. destruct i as [|i]; cbn [nth_error] in *.
+  - injection H as -> _. replace (k + N.of_nat 0 + 1)%N with (k + 1)%N by lia. reflexivity.
+  - rewrite (IH (k + 1)%N i p s H). replace (k + 1 + N.of_nat i + 1)%N with (k + N.of_nat (S i) + 1)%N by lia. reflexivity.
+Qed.
+
+Lemma tree_entries_keys : forall files k key, (k + N.of_nat (length files) < 65536)%N ->
+  In key (map fst (tree_entries k files)) -> (k < key <= k + N.of_nat (length files))%N.
+Proof.
+  induction files as [|[p0 s0] t IH]; intros k key B H; [contradiction|].
+  cbn [tree_entries map fst In length] in *. rewrite Nat2N.inj_succ in *. destruct H as [H|H].
+  - subst key. unfold u16. rewrite N.mod_small by lia. lia.
+  - apply (IH (k + 1)%N) in H; lia.
+Qed.
+
+Lemma tree_entries_nodup : forall files k, (k + N.of_nat (length files) < 65536)%N ->
+  NoDup (map fst (tree_entries k files)).
+Proof.
+  induction files as [|[p0 s0] t IH]; intros k B; [constructor|].
+  cbn [tree_entries map fst length] in *. rewrite Nat2N.inj_succ in B. constructor.
+  - intro H. apply (tree_entries_keys t (k + 1)%N) in H; [|lia]. unfold u16 in H. rewrite N.mod_small in H by lia. lia.
+  - apply IH. lia.
+Qed.
+
+(* distinct paths and fewer than 65536 files: id i+1 names the content of the i-th file (the simple model source_tree) *)
+Theorem tree_source_distinct files i p s :
+  NoDup (map fst files) -> (N.of_nat (length files) < 65536)%N -> nth_error files i = Some (p, s) ->
+  tree_source files (N.of_nat i + 1) = Some s.
+Proof.
+  intros ND B H. unfold tree_source, tree_path, tree_content.
+  assert (i < length files) as Li by (apply nth_error_Some; congruence).
+  pose proof (tree_entries_nth files 0 i p s H) as E. unfold u16 in E. rewrite N.mod_small in E by lia.
+  rewrite N.add_0_l in E.
+  rewrite (last_assoc_nodup _ (tree_entries_nodup files 0 ltac:(lia)) i _ _ E).
+  exact (last_assoc_nodup files ND i p s H).
+Qed.
+
+(* the association list handed to composed_one answers exactly like the two hash maps *)
+Lemma find_resolved (f : N -> option source) id : forall es : list (N * N),
+  find (fun p => Nat.eqb (fst p) (N.to_nat id))
+       (flat_map (fun e => match f (fst e) with Some s => [(N.to_nat (fst e), s)] | None => [] end) es)
+  = if existsb (fun e => N.eqb (fst e) id) es
+    then match f id with Some s => Some (N.to_nat id, s) | None => None end else None.
+Proof.
+  induction es as [|e es IH]; [reflexivity|]. cbn [flat_map existsb]. destruct (N.eqb_spec (fst e) id) as [E|E].
+  - rewrite E. cbn [orb]. destruct (f id) as [s|].
+    + cbn [app find fst]. rewrite Nat.eqb_refl. reflexivity.
+    + cbn [app]. rewrite IH. destruct (existsb _ es); reflexivity.
+  - cbn [orb]. destruct (f (fst e)) as [s|]; cbn [app]; [|exact IH].
+    cbn [find fst]. destruct (Nat.eqb_spec (N.to_nat (fst e)) (N.to_nat id)) as [X|_]; [apply N2Nat.inj in X; contradiction | exact IH].
+Qed.
+
+Lemma last_assoc_absent {A} key (l : list (N * A)) : existsb (fun e => N.eqb (fst e) key) l = false -> last_assoc key l = None.
+Proof.
+  intro H. apply last_assoc_none. intro I. apply in_map_iff in I as (e & <- & I).
+  assert (existsb (fun e0 => N.eqb (fst e0) (fst e)) l = true) as X by (apply existsb_exists; exists e; split; [assumption | apply N.eqb_refl]).
+  congruence.
+Qed.
+
+Theorem tree_of_files_find files id :
+  find (fun p => Nat.eqb (fst p) (N.to_nat id)) (tree_of_files files) =
+  match tree_source files id with Some s => Some (N.to_nat id, s) | None => None end.
+Proof.
+  unfold tree_of_files. rewrite find_resolved. destruct (existsb _ (tree_entries 0 files)) eqn:X; [reflexivity|].
+  unfold tree_source, tree_path. rewrite (last_assoc_absent _ _ X). reflexivity.
+Qed.
+
+(* ------------------------------------------------------------ the repaired pipeline (prepared, fixes/F9-…-in-composed.diff) *)
+Lemma composed_one_fixed_bytes tree s sid bs be cs ce :
+  find (fun p => Nat.eqb (fst p) sid) tree = Some (sid, s) ->
+  cs <= ce -> ce <= length s -> byte_of_char s cs = bs -> byte_of_char s ce = be ->
+  composed_one_fixed tree (Some (Span bs be sid)) =
+  Ret (Some (Span cs ce sid), Some (locate (lines s) cs 0, locate (lines s) ce 0)).
+Proof.
+  intros F Hc Hce Es Ee. unfold composed_one_fixed, to_char. cbn [sp_src sp_start sp_end]. unfold source in *. rewrite F.
+  rewrite <- Es, <- Ee, !char_of_byte_of_char by lia. cbn [sp_start sp_end].
+  rewrite location_is_position_lemma by (cbn [sp_start sp_end]; lia). cbn [sp_start sp_end].
+  destruct (Nat.ltb_spec ce cs); [lia | reflexivity].
+Qed.
+
+(* FULL STRENGTH, no ASCII hypothesis: a parser error over tokens i..j is reported without a panic as the CHARACTER span
+   of the text from the start of token i to the end of token j-1, with the position of both ends *)
+Theorem parser_error_located_fixed s toks i j :
+  let sp := map_span toks i j 1 in
+  toks_okb 0 toks = true -> i < j -> j <= length toks ->
+  boundary s (sp_start sp) -> boundary s (sp_end sp) ->
+  exists cs ce,
+    composed_one_fixed [(1, s)] (Some sp) = Ret (Some (Span cs ce 1), Some (locate (lines s) cs 0, locate (lines s) ce 0)) /\
+    cs <= ce /\ ce <= length s /\ byte_of_char s cs = sp_start sp /\ byte_of_char s ce = sp_end sp.
+Proof.
+  intros sp Hok Hij Hj (cs & Hcs & Es) (ce & Hce & Ee).
+  pose proof (map_span_start_le_end toks i j 1 Hok Hij Hj) as Hle. fold sp in Hle.
+  assert (cs <= ce) as Hc.
+  { destruct (Nat.le_gt_cases cs ce) as [|Hgt]; [assumption|].
+    pose proof (byte_of_char_strict s ce cs Hgt Hcs). lia. }
+  exists cs, ce. split; [|repeat split; assumption].
+  assert (sp = Span (sp_start sp) (sp_end sp) 1) as E by (destruct sp eqn:X; unfold sp in X; unfold map_span in X; injection X as <- <- <-; reflexivity).
+  rewrite E. apply composed_one_fixed_bytes; try assumption. reflexivity.
+Qed.
+
+(* the repair changes nothing for lexer errors: character span -> byte span -> `composed` gives what HEAD reports *)
+Theorem lexer_error_reported_fixed_same tree s bs be sid :
+  find (fun p => Nat.eqb (fst p) sid) tree = Some (sid, s) ->
+  boundary s bs -> boundary s be -> bs <= be ->
+  lexer_error_reported_fixed tree s bs be sid = lexer_error_reported tree s bs be sid.
+Proof.
+  intros F Hs He Hle.
+  destruct (lexer_error_span_in_bounds_lemma s bs be sid Hs He Hle) as (cs & ce & E & G1 & G2 & G3 & G4).
+  unfold lexer_error_reported_fixed, lexer_error_reported. rewrite E. cbn [bind fst snd].
+  unfold lexer_error_to_byte_span. cbn [sp_start sp_end sp_src]. rewrite G3, G4.
+  rewrite (composed_one_fixed_bytes tree s sid bs be cs ce F G1 G2 G3 G4).
+  unfold composed_one. cbn [sp_src]. unfold source in *. rewrite F.
+  rewrite location_is_position_lemma by (cbn [sp_start sp_end]; lia). cbn [sp_start sp_end].
+  destruct (Nat.ltb_spec ce cs); [lia | reflexivity].
+Qed.
